@@ -18,6 +18,8 @@ for c in m['checks']:
 print(' '.join(ts))
 PY
 )
-(cd lean && lake build $TARGETS)
+# the driver must build; a theorem module that fails to build is reported by its own check, not here
+(cd lean && lake build moyo_model)
+(cd lean && lake build $TARGETS) || echo "setup: some theorem modules failed to build (their checks will report it)"
 (cd harness && cargo build)
 echo "setup ok"
